@@ -301,7 +301,12 @@ func PrepareForPackager(
 			}
 
 			cc := content.WithFileInfoDefaults(umask, mtime)
-			cc.Source = ToNixPath(cc.Source)
+			if cc.Source != "" {
+				// an entry without a source (a ghost) stays without one:
+				// cleaning "" yields ".", which a second preparation of
+				// the same contents would stat
+				cc.Source = ToNixPath(cc.Source)
+			}
 			cc.Destination = NormalizeAbsoluteFilePath(cc.Destination)
 			contentMap[cc.Destination] = cc
 		case TypeTree:
